@@ -45,7 +45,7 @@ class _CommonVisitors(visitor.NodeVisitor):
 
     def visit_Boolean(self, node: ast.Boolean) -> Union[True_, False_]:
         ":meta private:"
-        if node.val == "true":
+        if node.py_val:
             return true()
         else:
             return false()
